@@ -3,6 +3,7 @@ Structural clauses decided (DESIGN.md §5 C06): the RFC 4035 §5.3.1 conjunct se
 ValidRrsig return; the guard set of the one Ok((Secure, ttl)) in verify_rrset_with_dnskey; key
 filtering in verify_rrsig_with_keys; TTL provenance; validation-cache key and expiry guard."""
 import re
+import argnames
 import helpers
 import core
 from api import shorten, writers
@@ -95,6 +96,20 @@ def signature_rules(cx, R='C06'):
             cx.guard(R + '.G3', some, {'collision-cap-or-first':
                      r'^le\(.*,const:dnssec::MAX_KEY_TAG_COLLISIONS\)$|^!ok\(HashMap::get_mut\('}, expect=1, fn=g)
 
+
+
+def nsec_not_wildcard_expanded(cx, rule):
+    """RFC 4035 5.4 / RFC 5155: an NSEC/NSEC3 RRset whose RRSIG Labels field is smaller than its owner's label count was itself
+    synthesised from a wildcard (or replayed under another owner: the signed name is rebuilt from the Labels field) and must
+    not reach signature verification - for EVERY owner, including owners whose leftmost label is `*` (num_labels already
+    discounts it).  Shared by C06 (what a signature covers), C08 and C09 (only authenticated NSEC/NSEC3 enter the proofs)."""
+    f = cx.fn(rule, N + 'verify_rrsig_with_keys')
+    if not f:
+        return
+    calls = cx.calls(f, r'dnssec::verify_rrset_with_dnskey$')
+    cx.guard(rule, calls, {'nsec-not-wildcard-expanded':
+             r'^eq\(SIG::input\(RecordRef::data\(arg2\)\)\.num_labels,LowerName::num_labels\(arg3\.name\)\)$|^!eq:RecordType\(RecordType::NSEC3,arg3\.record_type\)$'}, expect=1, fn=f)
+    return calls
 
 
 def run(cx):
@@ -240,3 +255,8 @@ def run(cx):
 
     # ---------------------------------------------------------------- H helper semantics the guards above rely on (rules/helpers.py)
     helpers.check(cx, 'C06.H', ['DNSKEY::zone_key', 'DNSKEY::revoke', 'Proof::is_secure', 'SerialNumber::partial_cmp', 'LowerName::num_labels'])
+
+    # ---------------------------------------------------------------- N1 argument names agree with the parameters they are bound to (engine/argnames.py)
+    argnames.check(cx, 'C06.N1', r'hickory_net::dnssec', floor=80)
+    argnames.check_fields(cx, 'C06.N1', r'hickory_net::dnssec', floor=45)
+
